@@ -211,3 +211,51 @@ def rule_dsitem(ctx, R):
     R.check(st == wants, 'result: r8..r15 at output + 8i', src, expected=wants[:3], found=st[:4])
     adv = [(i[1], ops(i)) for i in seq if i[1] == 'add' and ops(i)[0] in ('rsi', 'rbp')]
     R.check(sorted(adv) == sorted([('add', ['rbp', '0x1']), ('add', ['rsi', '0x40'])]), 'advance: one item, 64 bytes', src, expected='add rbp, 1 ; add rsi, 64', found=adv)
+
+
+# ---------------------------------------------------------------------------------------------------------------------------
+# [X86-ISA-BASE] the hand-written x86-64 runtime uses nothing beyond the baseline ISA outside the fragments selected by a CPU-feature flag
+X86_EXT = re.compile(r'^(lzcnt|tzcnt|popcnt|andn|bextr|bls(i|r|msk)|bzhi|mulx|pdep|pext|rorx|sarx|shlx|shrx|adcx|adox|movbe|crc32|pclmulqdq|pshufb|palignr|pabs[bwd]|phadd\w*|phsub\w*|pmaddubsw|pmulhrsw|psign[bwd]|'
+                     r'pblend\w+|blendv?p[sd]|dpp[sd]|extractps|insertps|pinsr[bdq]|pextr[bdq]|pmov[sz]x\w+|pmulld|pmuldq|ptest|round[ps][sd]|pcmpeqq|pcmpgtq|packusdw|pmaxs[bd]|pmaxu[wd]|pmins[bd]|pminu[wd]|mpsadbw|phminposuw|'
+                     r'pcmp[ei]str[im]|aes\w+|sha\w+|gf2p8\w+|v[a-z]\w+|prefetchw|prefetchwt1|clflushopt|clwb|rdrand|rdseed|xsave\w*|xgetbv|rdpid|movdir\w+|kmov\w+)$')
+# mnemonics that start with v but belong to the base ISA
+X86_BASE_V = {'verr', 'verw'}
+
+
+def rule_isa_base(ctx, R):
+    R.rule('X86-ISA-BASE', 'RandomX runs on every x86-64 CPU (the interpreter and the JIT check no CPUID bit except AES, which the caller selects with RANDOMX_FLAG_HARD_AES): outside the fragments used only under that flag, the hand-written '
+           'x86-64 runtime - including randomx_reciprocal_fast, whose result the JIT embeds - contains no instruction of a later extension (on a CPU without LZCNT the bytes of `lzcnt` execute as `bsr` and give another result); '
+           'every instruction of the assembled object is classified by mnemonic', min_instances=10)
+    o = ctx.obj('x86')
+    R.saw(unit='src/jit_compiler_x86_static.S', config='K0')
+    syms = sorted((a, n) for n, a in o.symbols.items() if not n.startswith('.'))
+
+    def holder(off):
+        best = None
+        for a, n in syms:
+            if a <= off:
+                best = n
+            else:
+                break
+        return best or '?'
+    # data regions disassemble to garbage: only fragments whose label is a code label of the runtime are read (everything up to the first constant table of each)
+    n = 0
+    for off, mn, ops, raw in o.insns:
+        h = holder(off)
+        if mn in ('(bad)', '.byte', 'data16', 'cs', 'lock', 'out', 'hlt', 'cld', 'cmc', 'stos', 'cdq', 'jo', 'js') or mn.startswith('rex'):
+            continue            # bytes of constant tables read as code
+        n += 1
+        if X86_EXT.match(mn) and mn not in X86_BASE_V:
+            allowed = None
+            if mn.startswith('aes') and 'hard_aes' in h:
+                allowed = 'selected by RANDOMX_FLAG_HARD_AES'
+            elif mn == 'prefetchw':
+                allowed = 'a hint: executes as a no-op on x86-64 CPUs without PRFCHW'
+            inst = '%s in %s' % (mn, h)
+            if allowed:
+                R.ok(inst + ' (%s)' % allowed, 'src/jit_compiler_x86_static.S:%s' % h)
+            else:
+                R.violation(inst, 'src/jit_compiler_x86_static.S:%s+%#x' % (h, off - o.symbols.get(h, off)), expected='baseline x86-64 (SSE2) instructions only', found='%s %s' % (mn, ops))
+    if n < 300:
+        raise AnalysisBroken('X86-ISA-BASE: only %d instructions classified' % n)
+    R.ok('%d instructions classified' % n, 'src/jit_compiler_x86_static.S')
